@@ -1,6 +1,237 @@
+//! C07 — SetSketch register collisions follow the model; Jaccard bounds hold
 use crate::common::*;
+use crate::gen::*;
+use crate::sk::setsketch_a_q;
+use crate::stat::*;
+use fnv::FnvHasher;
+use probminhash::jaccard::get_jaccard_index_estimate;
+use probminhash::setsketcher::{SetSketchParams, SetSketcher};
+use rayon::prelude::*;
+use serde_json::json;
+
+/// exact collision probability P(K_A = K_B) of one register, clipping included.
+/// registers: k = clamp(floor(1 - log_b x), 0, top); x in (b^-k, b^(1-k)] for 0<k<top, x > 1 for k = 0, x <= b^(1-top) for k = top
+pub fn collision_model(b: f64, a: f64, top: u64, n0: f64, n1: f64, n2: f64) -> f64 {
+    let r0 = a * n0;
+    let r1 = a * n1;
+    let r2 = a * n2;
+    // survival S_r(x) = exp(-r x); P(X in (lo,hi]) = exp(-r lo) * (1 - exp(-r (hi-lo)))
+    let surv = |r: f64, x: f64| if r == 0. { 1. } else { (-r * x).exp() };
+    let inside = |r: f64, lo: f64, hi: f64| {
+        if r == 0. {
+            0.
+        } else if hi.is_infinite() {
+            (-r * lo).exp()
+        } else {
+            (-r * lo).exp() * (-(-r * (hi - lo)).exp_m1())
+        }
+    };
+    let lnb = b.ln();
+    let mut p = 0.;
+    // k = 0 : (1, inf)
+    p += inside(r0, 1., f64::INFINITY) * surv(r1, 1.) * surv(r2, 1.);
+    // X0 > inf impossible
+    let rmax = r0 + r1 + r2;
+    // intervals whose lower end is so large that every non-zero rate has underflowed contribute nothing: skip them
+    let rmin = [r0, r1, r2].iter().cloned().filter(|r| *r > 0.).fold(f64::INFINITY, f64::min);
+    let kstart = if rmin.is_finite() && rmin > 800. { (((rmin / 800.).ln() / lnb).floor() as u64).saturating_sub(1).max(1).min(top) } else { 1 };
+    for k in kstart..=top {
+        let lo = if k == top { 0. } else { (-(k as f64) * lnb).exp() };
+        let hi = ((1. - k as f64) * lnb).exp();
+        let t = inside(r0, lo, hi) * surv(r1, lo) * surv(r2, lo) + surv(r0, hi) * inside(r1, lo, hi) * inside(r2, lo, hi);
+        p += t;
+        // beyond this point every interval has negligible mass for all three rates
+        if k < top && rmax * hi < 1e-22 {
+            // remaining mass (all variables below hi is impossible beyond double precision) - jump to the clipped bin only if reachable
+            break;
+        }
+    }
+    p
+}
+
+fn trial_fraction<const U16: bool>(params: SetSketchParams, n0: usize, n1: usize, n2: usize, rng: &mut Rng) -> f64 {
+    let ids = fresh_ids(rng, n0 + n1 + n2, 0);
+    let mut a: Vec<u64> = ids[..n0 + n1].to_vec();
+    let mut b: Vec<u64> = ids[..n0].to_vec();
+    b.extend_from_slice(&ids[n0 + n1..]);
+    shuffle(&mut a, rng);
+    shuffle(&mut b, rng);
+    if U16 {
+        let mut sa = SetSketcher::<u16, u64, FnvHasher>::new(params, Default::default());
+        let mut sb = SetSketcher::<u16, u64, FnvHasher>::new(params, Default::default());
+        sa.sketch_slice(&a).unwrap();
+        sb.sketch_slice(&b).unwrap();
+        get_jaccard_index_estimate(sa.get_signature(), sb.get_signature()).unwrap()
+    } else {
+        let mut sa = SetSketcher::<u32, u64, FnvHasher>::new(params, Default::default());
+        let mut sb = SetSketcher::<u32, u64, FnvHasher>::new(params, Default::default());
+        sa.sketch_slice(&a).unwrap();
+        sb.sketch_slice(&b).unwrap();
+        get_jaccard_index_estimate(sa.get_signature(), sb.get_signature()).unwrap()
+    }
+}
 
 pub fn run(rep: &mut Report) {
-    let _ = rep;
-    eprintln!("C07 not implemented yet");
+    quiet_panics();
+    rep.rule = "S: cell = (b, m, register type, |A∩B|, |A\\B|, |B\\A|) with a, q as documented; per trial fresh items, both sets sketched by the real code, statistic = jaccard::get_jaccard_index_estimate of the two signatures, target = exact per-register collision probability of the model (three exponentials, register intervals, clipping at 0 and at min(q+1, I::MAX)); staged z-test. E(i): grid of cardinality triples x b: model p -> get_jaccard_bounds(p) must bracket J within 1e-4. E(ii): get_jaccard_bounds on EVERY fraction D/m for all m <= M (exhaustive for the sketch sizes covered) and near both ends for m in {4096, 65536, 1e6}, under catch_unwind: returns, and low <= high + 8*2^-52/(b-1). Distinct = cells / (b, D, m) points; non-trivial: 0 < p < 1".into();
+    // ---------------- S
+    let t1: u64 = rep.tier.pick(3000, 30_000);
+    let shapes: Vec<(&str, usize, usize, usize)> = vec![
+        ("balanced", 1000, 1000, 1000),
+        ("nested", 300, 0, 700),
+        ("disjoint", 0, 500, 800),
+        ("identical", 400, 0, 0),
+        ("small", 2, 1, 3),
+        ("one_vs_many", 1, 0, 100_000),
+        ("high_j", 950, 20, 30),
+        ("one_vs_million", 1, 0, 1_000_000),
+    ];
+    let mut ci = 0u64;
+    for &b in &[1.001f64, 1.1, 1.5, 2.0] {
+        for &m in &[1u64, 64, 4096] {
+            for (si, (sname, n0, n1, n2)) in shapes.iter().enumerate() {
+                ci += 1;
+                let ntot = n0 + n1 + n2;
+                if *sname == "one_vs_million" && (rep.tier == Tier::Quick || m != 64) {
+                    continue;
+                }
+                let hsel = mix(&[ci, rep.seed, 0xC07]);
+                if rep.tier == Tier::Quick && hsel % 2 == 0 && *sname != "identical" {
+                    continue;
+                }
+                if *sname == "identical" && hsel % 4 != 0 {
+                    continue;
+                }
+                let u16reg = (hsel >> 8) % 2 == 0;
+                let cell = format!("S/b={}/m={}/{}/{}", b, m, if u16reg { "u16" } else { "u32" }, sname);
+                if !rep.want(&cell) {
+                    continue;
+                }
+                // sometimes a deliberately small q so that clipping at q+1 is part of the observed law
+                let (a, q) = if ci % 5 == 0 { (20., ((ntot as f64 * 20.).ln() / b.ln()) as u64 + 2) } else { setsketch_a_q(b, m, (*n0 + (*n1).max(*n2)) as f64, 1e-6) };
+                if u16reg && q + 1 > 65535 {
+                    continue;
+                }
+                let top = (q + 1).min(if u16reg { 65535 } else { u32::MAX as u64 });
+                let params = SetSketchParams::new(b, m, a, q);
+                let p = collision_model(b, a, top, *n0 as f64, *n1 as f64, *n2 as f64);
+                let degenerate = *n1 == 0 && *n2 == 0;
+                let cost = (ntot.min(5 * m as usize) as f64) * m as f64 + 30. * ntot as f64;
+                let budget: f64 = rep.tier.pick(1.0e9, 6e10);
+                let tt = ((budget / cost) as u64).clamp(200, t1);
+                let minority = p.min(1. - p);
+                let enough = (tt as f64) * m as f64 * minority >= 400. && (tt as f64) * (m as f64 * minority).min(1.) >= 80.;
+                let targets = vec![Target::new("register_collision_fraction", if degenerate { 1. } else { p }, if degenerate { Kind::Exact } else if enough { Kind::TwoSided } else { Kind::Info })];
+                let seed = subseed(rep.seed, "C07/S", &[ci]);
+                let (n0, n1, n2) = (*n0, *n1, *n2);
+                let (rs, trials) = staged(seed, tt, 3, &targets, |rng, out| {
+                    out[0] = if u16reg { trial_fraction::<true>(params, n0, n1, n2, rng) } else { trial_fraction::<false>(params, n0, n1, n2, rng) };
+                });
+                let case = json!({"b": b, "m": m, "a": a, "q": q, "registers": if u16reg { "u16" } else { "u32" }, "n_both": n0, "n_a_only": n1, "n_b_only": n2, "model_collision_probability": p, "J": n0 as f64 / ntot as f64});
+                if ci % 13 == 1 {
+                    rep.sample(case.clone());
+                }
+                if !degenerate {
+                    rep.distinct.insert(mix(&[b.to_bits(), m, si as u64, u16reg as u64]));
+                }
+                record_cell(rep, "C07", &cell, &rs, trials * 2, case);
+            }
+        }
+    }
+    // ---------------- E (i): bounds bracket J on a grid
+    if rep.want("bracket") {
+        let mut pts = Vec::new();
+        for &b in &[1.0001, 1.001, 1.01, 1.1, 1.5, 2.0] {
+            for &ntot in &[10.0f64, 1e3, 1e5, 1e7] {
+                for i0 in 0..=20u64 {
+                    for i1 in 0..=20u64 {
+                        pts.push((b, ntot, i0, i1));
+                    }
+                }
+            }
+        }
+        let res: Vec<(f64, f64, u64, u64, f64, f64, f64, f64, Result<(f64, f64), String>)> = pts
+            .par_iter()
+            .map(|&(b, ntot, i0, i1)| {
+                let params = SetSketchParams::new(b, 4096, 20., 1 << 30);
+                let j = i0 as f64 / 20.;
+                let rest = 1. - j;
+                let f1 = i1 as f64 / 20.;
+                let (n0, n1, n2) = (ntot * j, ntot * rest * f1, ntot * rest * (1. - f1));
+                let p = collision_model(b, 20., u64::MAX >> 1, n0, n1, n2).min(1.);
+                (b, ntot, i0, i1, p, n0, n1, n2, catch(move || params.get_jaccard_bounds(p)))
+            })
+            .collect();
+        let mut npts = 0u64;
+        let mut worst: f64 = f64::NEG_INFINITY;
+        for (b, ntot, i0, i1, p, n0, n1, n2, r) in res {
+            let j = i0 as f64 / 20.;
+            npts += 1;
+            match r {
+                Ok((lo, hi)) => {
+                    let excess = (lo - j).max(j - hi);
+                    worst = worst.max(excess);
+                    if excess > 1e-4 {
+                        rep.violation("C07/bounds-do-not-bracket", "bracket", format!("b={} sizes (both {}, A only {}, B only {}): collision probability {} gives bounds ({}, {}) which do not contain J={}", b, n0, n1, n2, p, lo, hi, j), json!({"b": b, "n0": n0, "n1": n1, "n2": n2, "p": p}));
+                    }
+                }
+                Err(_) => rep.count("bracket.panics", 1), // aborts are judged by E(ii)
+            }
+            rep.distinct.insert(mix(&[b.to_bits(), ntot.to_bits(), i0, i1]));
+        }
+        rep.evaluations += npts;
+        rep.count("bracket.points", npts);
+        rep.extra.insert("bracket_worst_excess".into(), json!(worst));
+    }
+    // ---------------- E (ii): every collision fraction
+    if rep.want("fractions") {
+        let maxm: u64 = rep.tier.pick(1024, 2048);
+        let bs = [1.00001, 1.0001, 1.001, 1.01, 1.1, 1.5, 2.0];
+        let mut ms: Vec<u64> = (1..=maxm).collect();
+        ms.extend_from_slice(&[4096, 65536, 1_000_000]);
+        let res: Vec<(u64, Vec<(String, String, serde_json::Value)>)> = ms
+            .par_iter()
+            .map(|&m| {
+                let mut n = 0u64;
+                let mut fails = Vec::new();
+                for &b in &bs {
+                    let params = SetSketchParams::new(b, m, 20., 65534);
+                    let ds: Vec<u64> = if m <= maxm { (0..=m).collect() } else { (0..=2000).chain(m - 2000..=m).chain((0..2000).map(|i| i * (m / 2000))).collect() };
+                    for d in ds {
+                        let p = d as f64 / m as f64;
+                        n += 1;
+                        match catch(move || params.get_jaccard_bounds(p)) {
+                            Ok((lo, hi)) => {
+                                let tol = 8. * f64::EPSILON / (b - 1.);
+                                if !(lo <= hi + tol) || !lo.is_finite() || !hi.is_finite() {
+                                    if fails.len() < 3 {
+                                        fails.push(("C07/bounds-inverted".to_string(), format!("b={} fraction {}/{}: lower {} exceeds upper {} beyond rounding ({:e})", b, d, m, lo, hi, tol), json!({"b": b, "D": d, "m": m})));
+                                    }
+                                }
+                            }
+                            Err(msg) => {
+                                if fails.len() < 3 {
+                                    fails.push(("C07/bounds-abort".to_string(), format!("get_jaccard_bounds aborts for b={} at collision fraction {}/{} : {}", b, d, m, msg), json!({"b": b, "D": d, "m": m})));
+                                }
+                            }
+                        }
+                    }
+                }
+                (n, fails)
+            })
+            .collect();
+        let mut tot = 0;
+        for (n, fails) in res {
+            tot += n;
+            for (k, w, c) in fails {
+                rep.violation(&k, "fractions", w, c);
+            }
+        }
+        rep.evaluations += tot;
+        rep.count("fractions.points", tot);
+        rep.extra.insert("fractions_exhaustive".into(), json!({"all_D_over_m_for_m_up_to": maxm, "b_values": bs, "points": tot, "exhaustive_for_those_m": true}));
+        rep.sample(json!({"bounds_call": {"b": 1.001, "D": 4095, "m": 4096}, "result": format!("{:?}", catch(|| SetSketchParams::new(1.001, 4096, 20., 65534).get_jaccard_bounds(4095. / 4096.)))}));
+    }
+    collect_ticks(rep);
+    rep.assumptions.push("the collision model is evaluated in f64 with expm1; its error (<1e-12) is far below the statistical resolution".into());
 }
